@@ -140,6 +140,30 @@ def fixed_names(run, P, classes, rule="C08.reads"):
     # the same for everything else that can run while a statement is executing: only the
     # driver (set_up / run, between statements) names store entries itself
     drivers = {"set_up", "run", "run_single_step"}      # nested functions of these are not exempt
+    # a helper method whose every mention is a call made by set_up / run themselves
+    # (never from a nested function, a handler or run_single_step) is part of that driver
+    mentions = {}
+    for name, f in interp.methods.items():
+        for x in ast.walk(f.node):
+            if isinstance(x, ast.Attribute) and isinstance(x.value, ast.Name) and x.value.id == "self" \
+                    and x.attr in interp.methods:
+                mentions.setdefault(x.attr, []).append((name, x))
+    for m_, sites in mentions.items():
+        if m_ in drivers or m_.startswith("exec_") or interp.methods[m_].nested:
+            continue
+        ok_ = True
+        for caller, x in sites:
+            if caller not in ("set_up", "run"):
+                ok_ = False
+                break
+            inner = any(id(x) in {id(y) for y in ast.walk(g_.node)}
+                        for g_ in interp.methods[caller].nested.values())
+            called = any(isinstance(c_, ast.Call) and c_.func is x for c_ in ast.walk(interp.methods[caller].node))
+            if inner or not called:
+                ok_ = False
+                break
+        if ok_:
+            drivers.add(m_)
     others = []
     n_units = 0
 
